@@ -621,9 +621,19 @@ class C02(Spec):
     lean_targets = ("Earverif.Props.C02", "c02driver")
     props_module = "Earverif.Props.C02"
     theorems = tuple("Earverif.Stream." + t for t in (
-        "delay_eq", "delay_block_independent", "vbs_eq", "vbs_block_independent")) + tuple(
+        "delay_eq", "delay_block_independent", "vbs_eq", "vbs_block_independent", "aligner_run_eq",
+        "fir_init_zero", "fir_blockwise_eq", "vbs_fir_eq")) + tuple(
         "Earverif.Renderer." + t for t in (
-        "run_factor", "renderAll_eq_run", "render_refines_spec_partial", "C02_block_independent_partial"))
+        "aligner_eq", "run_factor", "renderAll_eq_run", "procChans_spec", "chans_subRun_spec", "obj_stream",
+        "ds_stream", "hoa_stream", "render_refines_spec", "C02_block_independent", "C02_length_and_origin",
+        "render_refines_spec_partial", "C02_block_independent_partial"))
+    HYPOTHESES_NOTE = (
+        "theorems still stated with component facts as hypotheses: none needed any more - render_refines_spec, "
+        "C02_block_independent and C02_length_and_origin are proved outright (hypothesis SessionOK = block_size >= 1 and "
+        "accepted timelines); render_refines_spec_partial / C02_block_independent_partial are kept from round 1 "
+        "(their aligner hypothesis is discharged by aligner_eq; the three per-renderer run hypotheses remain in "
+        "their statements) and are superseded. Not under the kernel: FFT convolver (FIR stand-in), gain calculators "
+        "(captured), track processors other than DirectTrackSpec.")
     trusted_base = (
         "models Earverif/Model/{Stream,Timeline,Renderer}.lean are hand transliterations of Delay, "
         "VariableBlockSizeAdapter, BlockAligner, ProcessingBlock/FixedGains/InterpGains/FixedMatrix, "
@@ -670,6 +680,7 @@ class C02(Spec):
         return scs
 
     def correspond(self, ctx):
+        ctx.notes.append(self.HYPOTHESES_NOTE)
         driver = Driver("c02driver", "Earverif.Driver.C02")
         conv_cases(ctx, driver, self.budgets(ctx)["conv"])
         self.correspond_render(ctx, driver, self.scenarios(ctx), mode="run")
@@ -759,23 +770,26 @@ class C02(Spec):
 SPEC = C02()
 
 REGISTRY = dict(
-    text="PARTIAL: Lean theorems prove, for ALL partitions of the stream (empty and single-sample blocks included, by "
-    "induction on the partition), that the literal state machines of Delay.process (Earverif.Stream.delay_eq: output = "
-    "the concatenation shifted by the delay, per-call lengths preserved), VariableBlockSizeAdapter.process "
-    "(vbs_eq: delay by block_size followed by the block function on aligned blocks, for any wrapped block function) and "
-    "BlockProcessingChannel.process (Earverif.Timeline.bpc_eq_gainAt, shared with C03: a function of the absolute "
-    "sample index only, no exception for accepted timelines) are functions of the concatenated stream. The composition "
-    "is proved only as Earverif.Renderer.render_refines_spec_partial / C02_block_independent_partial: a session factors "
-    "into three independent type-renderer runs and one BlockAligner run (run_factor, renderAll_eq_run), with the aligner "
-    "fact (aligner_eq) and the per-renderer stream facts as explicit named hypotheses; not proved: aligner_eq, "
-    "FIR-with-history = whole-stream FIR, the fold over items. The models are tied to the real ear.core.renderer.Renderer "
-    "on every run (block_size 1-8, decorrelator size 2-16 through public options; captured gains; all compositions of "
-    "streams <= 8 frames in thorough) and the direct predicate (max |out_A - out_B| <= 1e-9 scale over blockings, total "
-    "length = input length) searches the real code, including default 512/512 sizes in thorough.",
+    text="FULL: Lean theorem Earverif.Renderer.render_refines_spec proves, for every configuration with block_size >= 1, "
+    "every mix of accepted Objects/DirectSpeakers/HOA items, every input and EVERY partition of it into render() calls "
+    "(empty and single-sample blocks included), that the literal model of Renderer.render/get_tail raises nothing and "
+    "that all returned blocks plus the tail concatenate to the sample-by-sample specification RenderSpec.out of the "
+    "concatenated input; corollaries C02_block_independent (two blockings of the same input give identical output) and "
+    "C02_length_and_origin (exactly the input length, frame s = output time s). Proved from component theorems, each "
+    "for all partitions by induction: delay_eq (Delay.process slice copies), vbs_eq (VariableBlockSizeAdapter loop), "
+    "fir_blockwise_eq/vbs_fir_eq (FIR with history = whole-stream FIR delayed by block_size), aligner_eq (BlockAligner "
+    "add/get with offsets (-D,0,0)), bpc_eq_gainAt/fixed_all_spec (BlockProcessingChannel + the three interpreters), "
+    "procChans_spec/chans_subRun_spec (loop over items), obj_stream/ds_stream/hoa_stream, run_factor. The models are tied "
+    "to the real ear.core.renderer.Renderer on every run (block_size 1-8, decorrelator size 2-16 via public options; "
+    "captured gains; all compositions of streams <= 8 frames in thorough; OverlapSaveConvolver and the adapter against "
+    "the FIR model) and the direct predicate (max |out_A - out_B| <= 1e-9 scale over blockings, total length = input "
+    "length) searches the real code, including default 512/512 sizes in thorough.",
     note="Trusted: Lean kernel; hand transliteration + correspondence harness; the FFT convolver is modelled as a "
-    "direct-form FIR (tied by correspondence only); gain calculators are black boxes (captured). Left to search: the "
-    "aligner and the composed pipeline. Exact rationals on the model side; the property's 'up to rounding' is the float gap.",
-    technique="Lean 4 refinement proofs of the stream components (induction over partitions) + differential correspondence "
-    "with the real Renderer + partition-pair search",
+    "direct-form FIR (tied by correspondence only); gain calculators are black boxes (captured); DirectTrackSpec inputs "
+    "(track processors are C20). Quantifier: timelines accepted by the interpreters with non-negative durations / "
+    "interpolation lengths and start >= 0. Exact rationals on the model side; the property's 'up to rounding' is the "
+    "float gap. render_refines_spec_partial / C02_block_independent_partial are superseded leftovers.",
+    technique="Lean 4 refinement proof of the composed renderer (induction over partitions, component by component) + "
+    "differential correspondence with the real Renderer + partition-pair search",
     design_ref="DESIGN.md section 4, C02/C03",
 )
